@@ -127,9 +127,8 @@ Section C16.
   (** longitude, PARTIAL: non-negativity, unit row sums, constants and range for
       the periodic overlap exactly as coded, for every row with non-zero total.
       NOT proved: the periodic partition identity [lon_partition] (row totals =
-      target cell widths, column totals = source cell widths) under the
-      precondition that the widths of any source and target cell add up to at
-      most period/2; see C16_longitude_coarse_refuted for what happens beyond. *)
+      target cell widths, column totals = source cell widths), real precondition:
+      every cell at most one period wide (see the pointwise theorems below). *)
   Theorem C16_longitude_rows_partial period n m (tp sp : nat -> F) i :
     row_total m (lon_overlap period n m tp sp) i <> 0 ->
     (forall j, (j < m)%nat -> fle 0 (lon_weights period n m tp sp i j)) /\
@@ -222,37 +221,46 @@ Theorem C16_latitude_integral_conserved_R n m (tx sx x : nat -> R) :
   = @sumn R ROps m (fun j => (ss (S j) - ss j) * x j).
 Proof. exact (latitude_integral_conserved_R n m tx sx x). Qed.
 
-(** Longitude, pointwise and over the reals: when the widths of the two cells
-    add up to at most period/2 (and the cells lie within 3/2 periods of each
-    other, as after [% period]) the coded _periodic_overlap is the true periodic
-    overlap = sum of the overlaps with the three shifted copies.  What is still
-    missing for [lon_partition]: summing this over the cyclically ordered cells
-    produced by _periodic_lower/upper_bounds (rotation + telescoping). *)
-Theorem C16_periodic_overlap_pointwise_R (P x0 x1 y0 y1 : R) :
-  (0 < P)%R -> (x0 <= x1)%R -> (y0 <= y1)%R -> ((x1 - x0) + (y1 - y0) <= P / 2)%R ->
-  (- (3 * P / 2) < y0 - x0)%R -> (y1 - x0 < 3 * P / 2)%R ->
-  @per_overlap R ROps P x0 x1 y0 y1
-  = (@ov R ROps x0 x1 (y0 - P) (y1 - P) + @ov R ROps x0 x1 y0 y1 + @ov R ROps x0 x1 (y0 + P) (y1 + P))%R.
-Proof. exact (per_overlap_shifted_R P x0 x1 y0 y1). Qed.
+(** Longitude, pointwise (current code: the second interval is moved as a whole
+    next to x0 and the overlaps with its images at -period, 0, +period are
+    summed).  Over the reals: a full-period interval overlaps every cell not
+    wider than the period by the whole cell, an empty interval by nothing.
+    Real precondition of the (unproved) partition identity [lon_partition]:
+    every cell width <= period and every pair of lower bounds less than 3/2
+    periods apart (true after [% period]).  Still missing: additivity of the
+    periodic overlap over adjacent cells along the cyclically ordered chain
+    produced by _periodic_lower/upper_bounds (a brute-force case split proves it
+    over R but takes ~19 min of lra, so it is not part of the build). *)
+Theorem C16_periodic_overlap_images period (x0 x1 y0 y1 : R) :
+  let s := (@align_phase R ROps y0 x0 period - y0)%R in
+  @per_overlap R ROps period x0 x1 y0 y1
+  = (@ov R ROps x0 x1 (y0 + s + - period) (y1 + s + - period) + @ov R ROps x0 x1 (y0 + s + 0) (y1 + s + 0)
+     + @ov R ROps x0 x1 (y0 + s + period) (y1 + s + period))%R.
+Proof. exact (@per_overlap_images R ROps ROrd period x0 x1 y0 y1). Qed.
 
-(** Beyond the domain: three source and three target longitudes (every cell is
-    period/3 wide, i.e. narrower than the period/2 named in the code comment of
-    _periodic_overlap, but two widths add up to more than period/2).  The
-    overlaps of source cell 0 with the target cells do not add up to its width,
-    so the weights are not proportional to the true overlaps.  Faithful to the
-    code: replayed on the implementation by the plugin (runner 'coarse_lon'). *)
+Theorem C16_periodic_overlap_full_circle_R (P x0 x1 u : R) :
+  (0 < P)%R -> (x0 <= x1)%R -> (x1 - x0 <= P)%R -> (- (3 * P / 2) < u - x0 < 3 * P / 2)%R ->
+  @per_overlap R ROps P x0 x1 u (u + P)%R = (x1 - x0)%R /\ @per_overlap R ROps P x0 x1 u u = 0%R.
+Proof. intros HP Hx Hw Hr. split; [now apply pov_full_R|now apply pov_empty_R]. Qed.
+
+(** The former out-of-domain witness (three source and three target longitudes,
+    cells period/3 wide: two widths add up to more than period/2).  With the old
+    code (end points aligned independently) the overlaps of source cell 0 added
+    up to 3 instead of its width 4; with the current code the partition identity
+    holds, so the integral is conserved.  Replayed on the implementation by the
+    plugin (runner 'coarse_lon'); a revert of the fix breaks this theorem's
+    correspondence. *)
 Definition q (z : Z) : Qc := Q2Qc (inject_Z z).
-Theorem C16_longitude_coarse_refuted :
-  exists (period : Qc) (tp sp : nat -> Qc),
-    (forall i, (i < 3)%nat -> flt (cell_width 3 period tp i) (period / two)) /\
-    (forall j, (j < 3)%nat -> flt (cell_width 3 period sp j) (period / two)) /\
-    sumn 3 (fun i => lon_overlap period 3 3 tp sp i 0) <> cell_width 3 period sp 0.
+Theorem C16_longitude_coarse_conserves :
+  let tp := fun i => q (nth i [1; 5; 9]%Z 0%Z) in
+  let sp := fun j => q (nth j [0; 4; 8]%Z 0%Z) in
+  lon_partition (q 12) 3 3 tp sp /\
+  (forall i, (i < 3)%nat -> row_total 3 (lon_overlap (q 12) 3 3 tp sp) i <> 0).
 Proof.
-  exists (q 12), (fun i => q (nth i [1; 5; 9]%Z 0%Z)), (fun j => q (nth j [0; 4; 8]%Z 0%Z)).
-  split; [|split].
-  - intros i Hi. destruct i as [|[|[|i]]]; try lia; vm_compute; reflexivity.
-  - intros j Hj. destruct j as [|[|[|j]]]; try lia; vm_compute; reflexivity.
-  - intro H. vm_compute in H. discriminate H.
+  cbv zeta. split; [split|].
+  - intros i Hi. destruct i as [|[|[|i]]]; try lia; apply Qc_is_canon; vm_compute; reflexivity.
+  - intros j Hj. destruct j as [|[|[|j]]]; try lia; apply Qc_is_canon; vm_compute; reflexivity.
+  - intros i Hi. destruct i as [|[|[|i]]]; try lia; intro H; vm_compute in H; discriminate H.
 Qed.
 
 (** Non-vacuity: concrete instances over Qc satisfy the hypotheses. *)
@@ -327,6 +335,7 @@ Print Assumptions C16_longitude_rows_partial.
 Print Assumptions C16_horizontal_integral_conserved_partial.
 Print Assumptions C16_nan_semantics_strict.
 Print Assumptions C16_nan_semantics_skipna.
-Print Assumptions C16_periodic_overlap_pointwise_R.
-Print Assumptions C16_longitude_coarse_refuted.
+Print Assumptions C16_periodic_overlap_images.
+Print Assumptions C16_periodic_overlap_full_circle_R.
+Print Assumptions C16_longitude_coarse_conserves.
 Print Assumptions C16_hyps_satisfiable.
